@@ -815,10 +815,13 @@ func checkForStaleOutput(filename string, err error) bool {
 
 // calculateAndCheckRuleHash checks the output hash for a rule.
 func calculateAndCheckRuleHash(state *core.BuildState, target *core.BuildTarget) ([]byte, error) {
-	hash, err := state.TargetHasher.OutputHash(target)
+	// The outputs have only just been built or retrieved, so a hash remembered for them earlier
+	// (e.g. of artifacts from the cache that failed verification and were replaced) is stale.
+	hash, err := targetOutputHash(state, target)
 	if err != nil {
 		return nil, err
 	}
+	state.TargetHasher.SetHash(target, hash)
 
 	if err = checkRuleHashes(state, target, hash); err != nil {
 		if state.NeedHashesOnly && state.IsOriginalTargetOrParent(target) {
@@ -895,11 +898,16 @@ func (h *targetHasher) SetHash(target *core.BuildTarget, hash []byte) {
 
 // outputHash calculates the output hash for a target, choosing an appropriate strategy.
 func (h *targetHasher) outputHash(target *core.BuildTarget) ([]byte, error) {
+	return targetOutputHash(h.State, target)
+}
+
+// targetOutputHash calculates the output hash for a target from what is on disk now.
+func targetOutputHash(state *core.BuildState, target *core.BuildTarget) ([]byte, error) {
 	outs := target.FullOutputs()
 	if len(outs) == 1 && fs.FileExists(outs[0]) {
-		return outputHash(target, outs, h.State.PathHasher, nil)
+		return outputHash(target, outs, state.PathHasher, nil)
 	}
-	return outputHash(target, outs, h.State.PathHasher, h.State.PathHasher.NewHash)
+	return outputHash(target, outs, state.PathHasher, state.PathHasher.NewHash)
 }
 
 // outputHash is a more general form of OutputHash that allows different hashing strategies.
